@@ -94,13 +94,11 @@ def decimal(value: _decimal.Decimal) -> bytes:
     if not isinstance(value, _decimal.Decimal):
         raise TypeError('decimal.Decimal required, received {}'.format(
             type(value)))
-    tmp = str(value)
-    if '.' in tmp:
-        decimals = len(tmp.split('.')[-1])
-        value = value.normalize()
-        raw = int(value * (_decimal.Decimal(10)**decimals))
-        return struct.pack('>Bi', decimals, raw)
-    return struct.pack('>Bi', 0, int(value))
+    if not value.is_finite():
+        raise ValueError('Can not encode a non-finite decimal: {}'.format(
+            value))
+    decimals = max(0, -value.as_tuple().exponent)
+    return struct.pack('>Bi', decimals, int(value.scaleb(decimals)))
 
 
 def double(value: float) -> bytes:
